@@ -497,7 +497,94 @@ fn section_primitives(out: &mut Out) {
     }
 }
 
+/// Constructors documented to panic on out-of-contract arguments: the outcome (panic, or the object) is a
+/// result like any other and must not depend on the configuration.
+fn section_constructors(out: &mut Out) {
+    use std::panic::{catch_unwind, AssertUnwindSafe};
+    out.section("constructors");
+    let args: Vec<(u8, Vec<u8>, Vec<u8>)> = vec![
+        (0, vec![1, 2, 3], vec![4]),
+        (0, vec![64], vec![]),
+        (0, vec![1, 255], vec![2]),
+        (0, vec![1; 65], vec![]),
+        (0, vec![], corpus::ramp(33, 0)),
+        (0, vec![5, 5, 5, 5], vec![]),
+        (31, vec![1], vec![1]),
+        (30, corpus::ramp(64, 0), corpus::ramp(32, 0)),
+        (0, vec![], vec![1; 65]),
+        (5, vec![], vec![200]),
+    ];
+    let z = |v: Vec<u8>| {
+        let mut a = v;
+        a.resize(64, 0);
+        a
+    };
+    let mut dirty_tail = z(vec![1, 2, 3]);
+    dirty_tail[10] = 7;
+    let mut dirty_tail2 = z(vec![]);
+    dirty_tail2[31] = 1;
+    let arrays: Vec<(u8, Vec<u8>, Vec<u8>, u8, u8)> = vec![
+        (3, z(vec![1, 2, 3]), z(vec![4, 5]), 3, 2),
+        (3, dirty_tail, z(vec![]), 3, 0),
+        (3, z(vec![]), dirty_tail2, 0, 0),
+        (3, z(corpus::ramp(64, 0)), z(vec![]), 65, 0),
+        (3, z(vec![]), z(corpus::ramp(32, 0)), 0, 33),
+        (3, z(vec![1, 64, 3]), z(vec![]), 3, 0),
+        (3, z(vec![6, 6, 6, 6, 6]), z(vec![]), 5, 0),
+        (31, z(vec![1]), z(vec![]), 1, 0),
+        (3, z(vec![]), z(vec![200, 200]), 0, 0),
+    ];
+    macro_rules! show {
+        ($tag:expr, $e:expr) => {{
+            let r = catch_unwind(AssertUnwindSafe(|| $e));
+            match r {
+                Ok(h) => out.line(format!("K {} Ok {:?} valid={}", $tag, h, h.is_valid())),
+                Err(_) => out.line(format!("K {} PANIC", $tag)),
+            }
+        }};
+    }
+    macro_rules! plain {
+        ($ty:ty, $name:expr, $cap2:expr) => {
+            for (i, (log, a, b)) in args.iter().enumerate() {
+                let bs: u32 = if *log < 31 { 3u32 << *log } else { 4 };
+                show!(format!("{} near_raw {}", $name, i), <$ty>::new_from_internals_near_raw(*log, a, b));
+                show!(format!("{} internals {}", $name, i), <$ty>::new_from_internals(bs, a, b));
+            }
+            for (i, (log, a, b, l1, l2)) in arrays.iter().enumerate() {
+                let mut x1 = [0u8; 64];
+                x1.copy_from_slice(&a[..64]);
+                let mut x2 = [0u8; $cap2];
+                x2.copy_from_slice(&b[..$cap2]);
+                show!(format!("{} raw {}", $name, i), <$ty>::new_from_internals_raw(*log, &x1, &x2, *l1, *l2));
+                show!(format!("{} init_raw {}", $name, i), {
+                    let mut h = <$ty>::new();
+                    h.init_from_internals_raw(*log, &x1, &x2, *l1, *l2);
+                    h
+                });
+            }
+        };
+    }
+    plain!(RawFuzzyHash, "Raw", 32);
+    plain!(LongRawFuzzyHash, "LongRaw", 64);
+    plain!(FuzzyHash, "Norm", 32);
+    plain!(LongFuzzyHash, "LongNorm", 64);
+    for (i, (log, a, b)) in args.iter().enumerate() {
+        let bs: u32 = if *log < 31 { 3u32 << *log } else { 4 };
+        show!(format!("Dual near_raw {}", i), DualFuzzyHash::new_from_internals_near_raw(*log, a, b));
+        show!(format!("LongDual internals {}", i), LongDualFuzzyHash::new_from_internals(bs, a, b));
+    }
+    for v in [3u32, 4, 0, 6, 7, u32::MAX] {
+        let r = catch_unwind(|| block_size::log_from_valid(v));
+        out.line(format!("K log_from_valid {} {:?}", v, r.ok()));
+    }
+    for (l1, l2, d) in [(7u8, 7u8, 0u32), (6, 7, 0), (7, 65, 0), (7, 7, 1), (64, 64, 115), (64, 64, 114)] {
+        let r = catch_unwind(|| FuzzyHashCompareTarget::raw_score_by_edit_distance(l1, l2, d));
+        out.line(format!("K raw_score {} {} {} {:?}", l1, l2, d, r.ok()));
+    }
+}
+
 fn main() {
+    std::panic::set_hook(Box::new(|_| {}));
     let args: Vec<String> = std::env::args().skip(1).collect();
     let mut out = Out { sections: vec![], self_mismatches: vec![] };
     if let Err(e) = corpus::validate_words() {
@@ -509,6 +596,7 @@ fn main() {
     section_conversions(&mut out);
     section_scores(&mut out);
     section_primitives(&mut out);
+    section_constructors(&mut out);
     if args.len() == 2 && args[0] == "--dump" {
         for (name, lines) in &out.sections {
             if name == &args[1] {
